@@ -71,7 +71,7 @@ typename DynamicArrayT<T, NC_>::Index
 DynamicArrayT<T, NC_>::emplace(TArgs&&... args) noexcept {
 	FFSM2_ASSERT(_count < CAPACITY);
 
-	new (&_items[_count]) Item{forward<TArgs>(args)...};
+	new (&_items[_count]) Item{::ffsm2::forward<TArgs>(args)...};
 
 	return _count++;
 }
@@ -118,7 +118,7 @@ template <typename T, Long NC_>
 FFSM2_CONSTEXPR(14)
 DynamicArrayT<T, NC_>&
 DynamicArrayT<T, NC_>::operator += (Item&& item) noexcept {
-	emplace(move(item));
+	emplace(::ffsm2::move(item));
 
 	return *this;
 }
